@@ -250,8 +250,16 @@ class C03(Property):
                     rho = np.where(okser, ser, rho)
                 elif cls_name == "PerturbedDroplet3D":
                     rho = d.interface_distance(ang[0].ravel(), ang[1].ravel()).reshape(dist.shape)
+                    ser = O.series_3d(float(spec["droplet"]["radius"]), [float(a) for a in spec["droplet"]["amplitudes"]], ang[0], ang[1])
                 else:
                     rho = d.interface_distance(ang[0].ravel()).reshape(dist.shape)
+                    ser = O.series_axisym(float(spec["droplet"]["radius"]), [float(a) for a in spec["droplet"]["amplitudes"]], ang[0])
+                if cls_name != "PerturbedDroplet2D":
+                    # the rendered picture must follow the documented series of real spherical harmonics (independent implementation)
+                    okser = np.isfinite(rho) & np.isfinite(ser)
+                    tol_ser = 1e-11 * float(spec["droplet"]["radius"]) * (1 + sum(abs(float(a)) for a in spec["droplet"]["amplitudes"]))
+                    ctx.require(bool(np.all(np.abs(rho[okser] - ser[okser]) <= tol_ser)), f"shape-function-differs-from-series:{cls_name}", f"interface_distance deviates from the documented harmonic series by {float(np.max(np.abs(rho[okser] - ser[okser]))) if okser.any() else None}")
+                    rho = np.where(okser, ser, rho)
             centre_cell = dist <= 1e-12 * max(1.0, float(np.abs(spec["droplet"]["position"]).max()))
         else:
             rho = np.full(dist.shape, float(spec["droplet"]["radius"]))
